@@ -122,6 +122,15 @@ def c10(run):
         return out
     cases, _ = table_flow(run, "Server", "Server.cfg", "C10", "TestServer", "ServerTrace", ["C10_"], extra_cases=extra, derive=fprune,
                           sig_fn=lambda c, f: {"kind": c.get("in", {}).get("kind"), "below_tail": c.get("in", {}).get("origin", 0) < c.get("in", {}).get("tail", 0)})
+    # the store changes between two store calls of one request (ServerConc.tla): self-test first — the handler variant that
+    # decides "below the tail" by a second HasAt(from) must be refuted by TLC — then every row on the real server
+    bad = vlib.tlc(run.pid, "conc_bad", "ServerConc", "ServerConcBad.cfg", workers=2, timeout=600)
+    if bad.error or "PredictedAllowed" not in (bad.violated or ""):
+        raise vlib.Inconclusive("self-test: ServerConc.tla variant hasAtFrom was not refuted (%s)" % (bad.error or bad.violated))
+    run.cov["serverconc_selftest"] = "variant hasAtFrom refuted (PredictedAllowed)"
+    conc_cases, _ = table_flow(run, "ServerConc", "ServerConc.cfg", "C10C", "TestServerConc", "ServerConcTrace", ["C10_"], shards=8,
+                               sig_fn=lambda c, f: {"kind": "range+mutation", "m": c.get("in", {}).get("m")})
+    run.cov["serverconc_rows"] = len(conc_cases)
     # a peer that drains the answer slowly, over a stream that honours deadlines (mocknet's do not): the handler is done
     # within RequestTimeout + WriteDeadline however many responses the answer has
     judge(run, [{"id": 0, "from_tlc": False}], "TestServerDeadline", "ServerDeadlineTrace", ["C10_"], shards=1)
